@@ -82,5 +82,5 @@ func run(c *core.Ctx) {
 	c.Set("real_handshakes", st.Handshakes)
 	c.Set("early_accepts_wrong_secret_handler_entered_before_key_proof", st.EarlyAccept)
 	c.Set("exhaustive", c.Thorough())
-	c.Set("rule", "behaviours = configurations (address shape x encryption x integrity x cipher list x command list x lifetime x version form x direction; all 5400 in thorough, an OA(49,8,7,2) pairwise cover plus every combination of the text-shaping dimensions in quick) x {importer holds the minted secret, importer holds it with one character changed}, enumerated by TLC from Gen_ClaimSession; the corrupted class expands to concrete positions x substitute characters; each job runs the real mint / import / file-transfer import on two caches and two real handshakes naming the session id plus one handshake by command (command map path) for every listed command from either end; distinct = distinct (configuration, relation, position, substitute)")
+	c.Set("rule", "behaviours = configurations (address shape x encryption x integrity x cipher list x command list x lifetime x version form x direction; all 7560 in thorough, an OA(49,8,7,2) pairwise cover plus every combination of the text-shaping dimensions in quick) x {importer holds the minted secret, importer holds it with one character changed}, enumerated by TLC from Gen_ClaimSession; the corrupted class expands to concrete positions x substitute characters; each job runs the real mint / import / file-transfer import on two caches and two real handshakes naming the session id plus one handshake by command (command map path) for every listed command from either end; distinct = distinct (configuration, relation, position, substitute)")
 }
